@@ -54,6 +54,8 @@ def configs(tier, seed):
         for algo in ("GPO", "PCT", "VPCT"):
             out.append({"name": "rec-%s-stub-n%d-rhomax%s" % (algo, n, rm), "algo": algo, "mode": "gpo", "part": "B", "d": 1, "T": n + 3,
                         "params": {"rhomax": rm, "rounds": n}, "cost": 30})
+    for c in c01.modeb_configs(tier, ["DOO", "SOO", "StoSOO", "SequOOL"]):
+        out.append(dict(c, name="rec-" + c["name"]))
     out.append({"name": "twin-SOO", "algo": "SOO", "part": "B", "d": 1, "T": 3, "params": {}, "twin": True, "expect_fail": "twin"})
     return out
 
